@@ -8,7 +8,10 @@ SOCK_INTERPOSE = ["-Dsocket=verif_socket", "-Daccept4=verif_accept4", "-Dconnect
 
 @prop("C16")
 def c16():
-    shims = ["tp_common.c", "tp_task.c"] + TP_CORE + [repo_src("src/threadpool/threadpool_task.c"), "repo:src/net/socket.c",
+    # first unit: recv() of the task code is a harness point too (a scenario can make the next fragment arrive between two reads of one handler run)
+    task_src = dict(repo_src("src/threadpool/threadpool_task.c"))
+    task_src["cflags"] = list(task_src["cflags"]) + ["-Drecv=verif_recv"]
+    shims = ["tp_common.c", "tp_task.c"] + TP_CORE + [task_src, "repo:src/net/socket.c",
              "repo:src/net/socket_options.c", "repo:src/net/socket_address.c", "repo:src/net/utils.c", "repo:src/utils/sys.c"]
     shims_conn = ["tp_common.c", "tp_conn.c"] + TP_CORE + [repo_src("src/threadpool/threadpool_task.c"),
                   {"src": "repo:src/net/socket.c", "cflags": SOCK_INTERPOSE},
